@@ -156,6 +156,10 @@ func cCsig(c *cose.Countersignature) string {
 	return "(GCsig " + rp + " " + p + " " + ru + " " + u + " " + cGoBytes(c.Signature) + ")"
 }
 
+// cGvRawNaN: render a NaN with the bits it has (inputs of the float leg of C08: the model's own NaN test then
+// decides); everywhere else a NaN is rendered as the one quiet NaN both sides observe.
+var cGvRawNaN bool
+
 func cGv(v any) string {
 	switch t := v.(type) {
 	case nil:
@@ -218,7 +222,7 @@ func cGv(v any) string {
 	case cbor.SimpleValue:
 		return "(GSimple " + cU(uint64(t)) + ")"
 	case float64:
-		if math.IsNaN(t) {
+		if math.IsNaN(t) && !cGvRawNaN {
 			return "(GFloat 9221120237041090561)" // every NaN is observed as one canonical NaN
 		}
 		return "(GFloat " + cU(math.Float64bits(t)) + ")"
